@@ -83,7 +83,26 @@ func c18m(c *Ctx) {
 			if tmpl == "" {
 				// a message that is computed (passed in, looked up): the constructor helper's
 				// callers are judged where the text is made
-				if _, isPar := msg.(*ssa.Parameter); isPar {
+				if par, isPar := msg.(*ssa.Parameter); isPar {
+					// the text is made by the callers of this helper: each argument they pass is a
+					// message of the catalogue
+					idx := paramIndex(fn, par)
+					for _, cs := range c.W.callsTo(fn) {
+						if isTestFunc(c.W, cs.Parent()) || idx < 0 || idx >= len(cs.Common().Args) {
+							continue
+						}
+						a := cs.Common().Args[idx]
+						t2 := ""
+						if s2, isC := strConst(a); isC {
+							t2 = s2
+						} else if f2, _, ok2 := flatTemplate(a, 0); ok2 {
+							t2 = f2
+						} else {
+							t2 = "<computed: " + c.term(cs.Parent(), a) + ">"
+						}
+						_, okM := known[t2]
+						c.Check(okM, fmt.Sprintf("rejection-through-helper[%s]@%s", t2, cs.Parent().Name()), c.W.Pos(cs.Pos()), "a reviewed reason to reject (message handed to "+fn.Name()+")", cs.Parent().Name()+" rejects through "+fn.Name()+" with a message that is not in the reviewed catalogue ("+pretty(t2)+")")
+					}
 					continue
 				}
 				tmpl = "<computed: " + c.term(fn, msg) + ">"
